@@ -20,6 +20,7 @@ type specVal struct {
 	term string
 	typ  types.Type
 	sort string // overrides sortOf(typ) when typ is nil
+	vspace bool // a struct *value* (value object) rather than an addressable struct variable
 }
 
 type specCtx struct {
@@ -287,6 +288,16 @@ func (c *specCtx) lookupName(name string) (specVal, bool) {
 			}
 		}
 	}
+	// a parameter that is reassigned: inside the body its current value is the latest definition
+	if c.block != nil {
+		for _, p := range fn.Params {
+			if p.Name() == name {
+				if v, ok := c.localByName(name); ok {
+					return v, true
+				}
+			}
+		}
+	}
 	for _, p := range fn.Params {
 		if p.Name() == name {
 			return specVal{term: vc.value(c.fr, c.st, p), typ: p.Type()}, true
@@ -324,7 +335,7 @@ func (c *specCtx) localByName(name string) (specVal, bool) {
 			}
 			loc := vc.locOf(c.fr, c.st, l)
 			if loc.kind == "sub" {
-				return specVal{term: loc.subRef, typ: elem}, true
+				return specVal{term: loc.subRef, typ: elem, vspace: loc.space == "V"}, true
 			}
 			return specVal{term: vc.readLoc(c.st, loc), typ: elem}, true
 		}
@@ -341,7 +352,7 @@ func (c *specCtx) localByName(name string) (specVal, bool) {
 					elem := a.Type().(*types.Pointer).Elem()
 					loc := vc.locOf(c.fr, c.st, a)
 					if loc.kind == "sub" {
-						return specVal{term: loc.subRef, typ: elem}, true
+						return specVal{term: loc.subRef, typ: elem, vspace: loc.space == "V"}, true
 					}
 					return specVal{term: vc.readLoc(c.st, loc), typ: elem}, true
 				}
@@ -450,7 +461,7 @@ func (c *specCtx) selectField(base specVal, name string) specVal {
 	curT := base.typ
 	cur := base.term
 	space := "F"
-	if isStructLike(curT) {
+	if isStructLike(curT) && base.vspace {
 		space = "V" // selecting from a struct value (value object)
 	}
 	for k, idx := range path {
